@@ -20,7 +20,7 @@ fn cfg(persistent: Option<String>) -> DriverCfg {
 }
 
 fn cfg_l(persistent: Option<String>, limit: usize) -> DriverCfg {
-    DriverCfg { dim: 2, metric: "euclidean".into(), auth: true, data_dir: persistent, hnsw_capacity: 64, snapshot_interval: 3, tenants: vec![("tenant_q".into(), 7, limit)] }
+    DriverCfg { dim: 2, metric: "euclidean".into(), auth: true, data_dir: persistent, hnsw_capacity: if limit > 1000 { limit + 64 } else { 64 }, snapshot_interval: 3, tenants: vec![("tenant_q".into(), 7, limit)] }
 }
 
 fn it(id: u64, v: [f32; 2]) -> Item {
@@ -115,6 +115,44 @@ pub fn shape_sequences() -> Vec<Vec<Rpc>> {
                 }
                 out.push(seq);
             }
+        }
+    }
+    out
+}
+
+/// Full-batch section: BulkLoadHnsw ingests in chunks of 10,000 validated documents INSIDE its
+/// receive loop and handles the remainder at end of stream — two copies of the reserve / load /
+/// release logic. Streams of <= 3 items only ever reach the second copy, so every mixed
+/// valid / rejected prefix of length <= 2 over ids {1,2,3} is also sent at the head of a stream
+/// of 10,000 fillers plus two trailing items (max_vectors = FULL_LIMIT), from three populations,
+/// followed by inserts that walk up to the limit.
+const FULL_LIMIT: usize = 10_008;
+pub fn full_batch_sequences() -> Vec<Vec<Rpc>> {
+    let atoms: Vec<(u64, bool)> = [1u64, 2, 3].iter().flat_map(|&i| [(i, true), (i, false)]).collect();
+    let mut prefixes: Vec<Vec<(u64, bool)>> = vec![vec![]];
+    for &a in &atoms {
+        prefixes.push(vec![a]);
+        for &b in &atoms {
+            prefixes.push(vec![a, b]);
+        }
+    }
+    let mk = |(i, valid): (u64, bool), j: usize| if valid { it(i, [i as f32 + 10.0, j as f32]) } else { Item { id: i, v: vec![1.0, 2.0, 3.0], m: vec![], ns: "".into() } };
+    let pops: Vec<Vec<u64>> = vec![vec![], vec![1], vec![1, 2]];
+    let mut out = Vec::new();
+    for pop in &pops {
+        for pre in &prefixes {
+            let mut seq: Vec<Rpc> = pop.iter().map(|&i| Rpc::Insert { t: 0, item: it(i, [i as f32, 0.5]) }).collect();
+            let mut items: Vec<Item> = pre.iter().enumerate().map(|(j, a)| mk(*a, j)).collect();
+            for f in 0..10_000u64 {
+                items.push(it(100 + f, [((f % 97) as f32) * 0.01 + 1.0, ((f / 97) as f32) * 0.01 + 1.0]));
+            }
+            items.push(mk((3, false), 7));
+            items.push(it(50_000, [0.25, 0.75]));
+            seq.push(Rpc::BulkLoad { t: 0, items });
+            for i in 60_000u64..60_010 {
+                seq.push(Rpc::Insert { t: 0, item: it(i, [0.5, (i - 60_000) as f32 * 0.1 + 2.0]) });
+            }
+            out.push(seq);
         }
     }
     out
@@ -247,6 +285,10 @@ fn conc_programs() -> Vec<(Vec<Rpc>, Vec<Rpc>)> {
         v.push((setup.clone(), vec![del1.clone(), bd.clone()]));
     }
     v.push((vec![ins1.clone()], vec![ins1b.clone(), del1.clone(), ins2.clone()]));
+    // a drain racing a delete (the drain "repairs" a mirror whose canonical record is gone)
+    let flush = Rpc::Flush { t: 0 };
+    v.push((vec![ins1.clone()], vec![del1.clone(), flush.clone()]));
+    v.push((vec![ins1.clone(), ins2.clone()], vec![bd.clone(), flush.clone()]));
     v
 }
 
@@ -328,6 +370,14 @@ pub fn worker(wi: usize, wn: usize, tier: &str) {
         shapes += 1;
         check_sequence_l(&rt, seq, &scratch, &mut st, SHAPE_LIMIT);
     }
+    let mut full_batches = 0u64;
+    for (i, seq) in full_batch_sequences().iter().enumerate() {
+        if i % wn != wi {
+            continue;
+        }
+        full_batches += 1;
+        check_sequence_l(&rt, seq, &scratch, &mut st, FULL_LIMIT);
+    }
     drop(rt);
     for (i, (setup, conc)) in conc_programs().iter().enumerate() {
         if i % wn != wi {
@@ -336,7 +386,7 @@ pub fn worker(wi: usize, wn: usize, tier: &str) {
         check_conc(setup, conc, bound, &mut st);
     }
     vcore::par::worker_emit(&json!({"sequences":st.sequences,"steps":st.steps,"at_limit":st.at_limit_steps,"refused":st.refused_at_limit,"states":st.states.iter().collect::<Vec<_>>(),
-        "shapes":shapes,"conc_programs":st.conc_programs,"conc_executions":st.conc_executions,"conc_points":st.conc_points,"conc_incomplete":st.conc_incomplete,"violations":st.viol.to_json()}));
+        "shapes":shapes,"full_batches":full_batches,"conc_programs":st.conc_programs,"conc_executions":st.conc_executions,"conc_points":st.conc_points,"conc_incomplete":st.conc_incomplete,"violations":st.viol.to_json()}));
 }
 
 pub fn run(tier: &str, replay: Option<&str>) -> i32 {
@@ -392,7 +442,7 @@ pub fn run(tier: &str, replay: Option<&str>) -> i32 {
     let mut tot: BTreeMap<&str, u64> = BTreeMap::new();
     let mut states: BTreeSet<u64> = BTreeSet::new();
     for r in &res {
-        for k in ["sequences", "steps", "at_limit", "refused", "shapes", "conc_incomplete", "conc_programs", "conc_executions", "conc_points"] {
+        for k in ["sequences", "steps", "at_limit", "refused", "shapes", "full_batches", "conc_incomplete", "conc_programs", "conc_executions", "conc_points"] {
             *tot.entry(k).or_insert(0) += r[k].as_u64().unwrap_or(0);
         }
         for s in r["states"].as_array().unwrap() {
@@ -407,12 +457,13 @@ pub fn run(tier: &str, replay: Option<&str>) -> i32 {
     ev.set("traces_validated_against_impl", tot["sequences"] + tot["conc_executions"]);
     ev.set("evaluations", tot["sequences"] + tot["conc_executions"]);
     ev.set("distinct_nontrivial", tot["at_limit"]);
-    ev.set("rule", format!("sequential: all {n}^{depth} sequences of one tenant (max_vectors = {LIMIT}, local ids 1-3) over Insert new / duplicate / NaN / wrong dimension, Delete present / absent, BatchDelete with duplicate ids and by filter, BulkInsert with a rejected item and across the limit, BulkLoadHnsw with an in-batch duplicate and over the limit, UpdateMetadata, FlushHotTier, Restart (persistent engine + the start-up recount); after EVERY step the server's counter (read through the child module) must equal the live documents carrying the tenant index, never exceed the limit, and a valid Insert of a new id is RESOURCE_EXHAUSTED only at the limit. request shapes: every id list of length <= 3 over {{1,2,3,absent}} (all adjacent / non-adjacent repeat patterns) as BatchDelete(ids), BulkInsert and BulkLoadHnsw from each of the 8 populations of <= {SHAPE_LIMIT} documents (max_vectors = {SHAPE_LIMIT} there, so that a counter driven below the live count is not masked by saturation at zero), followed by a refill Insert 1,2,3,4, same per-step oracle; and every bulk stream of length <= 3 over ids {{1,2,3}} x {{valid, rejected (wrong dimension)}} with at least one rejected item, as BulkInsert and BulkLoadHnsw, from the same populations. concurrent: 25 programs of two (one of three) RPCs on the same id (insert||delete, overwrite||delete, insert||insert, delete||delete, insert||batch delete by ids/filter, inserts at the limit) from three setups, every schedule with <= 1 (quick) / 3 (thorough) preemptions under ksched; after join counter == live <= limit. non-trivial = steps executed with the tenant exactly at its limit"));
+    ev.set("rule", format!("sequential: all {n}^{depth} sequences of one tenant (max_vectors = {LIMIT}, local ids 1-3) over Insert new / duplicate / NaN / wrong dimension, Delete present / absent, BatchDelete with duplicate ids and by filter, BulkInsert with a rejected item and across the limit, BulkLoadHnsw with an in-batch duplicate and over the limit, UpdateMetadata, FlushHotTier, Restart (persistent engine + the start-up recount); after EVERY step the server's counter (read through the child module) must equal the live documents carrying the tenant index, never exceed the limit, and a valid Insert of a new id is RESOURCE_EXHAUSTED only at the limit. request shapes: every id list of length <= 3 over {{1,2,3,absent}} (all adjacent / non-adjacent repeat patterns) as BatchDelete(ids), BulkInsert and BulkLoadHnsw from each of the 8 populations of <= {SHAPE_LIMIT} documents (max_vectors = {SHAPE_LIMIT} there, so that a counter driven below the live count is not masked by saturation at zero), followed by a refill Insert 1,2,3,4, same per-step oracle; and every bulk stream of length <= 3 over ids {{1,2,3}} x {{valid, rejected (wrong dimension)}} with at least one rejected item, as BulkInsert and BulkLoadHnsw, from the same populations; full-batch section: every mixed valid / rejected prefix of length <= 2 at the head of a BulkLoadHnsw stream of 10,000 fillers + 2 trailing items (the in-loop 10,000-document chunk path AND the end-of-stream path in one request), from three populations, max_vectors = 10,008, followed by ten inserts walking up to the limit. concurrent: 25 programs of two (one of three) RPCs on the same id (insert||delete, overwrite||delete, insert||insert, delete||delete, insert||batch delete by ids/filter, inserts at the limit) from three setups, every schedule with <= 1 (quick) / 3 (thorough) preemptions under ksched; after join counter == live <= limit. non-trivial = steps executed with the tenant exactly at its limit"));
     ev.set("samples", json!([alphabet()[9], alphabet()[11], {"concurrent": ["Insert(1)", "Delete(1)"], "setup": ["Insert(1)"]}]));
     ev.set("exhaustive", true);
     ev.set("sequences", tot["sequences"]);
     ev.set("inserts_refused_at_limit", tot["refused"]);
     ev.set("request_shape_sequences", tot["shapes"]);
+    ev.set("full_batch_bulk_load_streams_of_10002_plus_prefix_items", tot["full_batches"]);
     ev.set("concurrent_programs", tot["conc_programs"]);
     ev.set("concurrent_executions_not_completed", tot["conc_incomplete"]);
     ev.set("concurrent_executions", tot["conc_executions"]);
